@@ -909,7 +909,7 @@ struct RefParser {
         return true;
     }
     bool parse_value(Node &out) {
-        if (++depth > 2000) {
+        if (++depth > 4000) {
             return fail("too deep");
         }
         bool ok = parse_value_inner(out);
